@@ -454,6 +454,8 @@ class Dyn(object):
         self.inst = inst
         self.escaped = escaped
         self.decisions = list(decisions)
+        self.raw = events           # the unfiltered event list (activations of nested functions are cut from it)
+        self.root = f.__code__
         self.ok = True
 
     def labelled(self):
@@ -551,10 +553,13 @@ def liveness_failures(an, fi, dyn):
             known = 'liveness-nonlocal-two-levels-down'
         elif ev[q][2] is not None and var in nl.get(ev[q][2], ()):
             known = 'liveness-nonlocal-closure-read'
-        elif ev[q][2] == '<lambda>' and any(x.line == ev[q][3] and x.start < p for x in lab):
+        elif ev[q][2] == '<lambda>' and (any(x.line == ev[q][3] and x.start < p for x in lab)
+                                         or ev[q][3] in getattr(dyn, 'lines_before', ())):
             # the read that makes the variable live is performed by the body of a lambda expression (the variable is
             # one of its free variables) that was evaluated by an earlier statement instance and is called after the
             # boundary: liveness.Analyzer.lamba_check leaves lambdas out of the closure rule
+            # (activation of a nested function: the earlier statement instance may be one of an enclosing function,
+            # executed before the activation started -- ActView.lines_before)
             known = 'liveness-lambda-closure-not-live'
         out.append({'what': what, 'var': var, 'label': label, 'known': known,
                     'read_at_line': ev[q][3], 'read_through': ev[q][2]})
@@ -602,6 +607,336 @@ def liveness_failures(an, fi, dyn):
             for v in dl:
                 if v not in a:
                     report('live after expression statement but not in LIVE_VARS_OUT', v, x.label, x.end, k + 1)
+    return out
+
+
+# ---------------------------------------------------------------------------------------------
+# C07 inside nested functions: every activation of a local function is judged against the graph of THAT function.
+#
+# Claim checked (a sound part of the property text): inside one activation of a nested function g, if the value a
+# variable of g's graph (a local of g, or a variable of an enclosing function that g's code mentions) holds when a
+# statement of g finishes is read later DURING THE SAME ACTIVATION before being overwritten -- by g's own code, by a
+# function nested in g, or by a local function of an enclosing function that is called (directly, through an alias,
+# a container or a chain of sibling closures) while g runs -- then g's liveness solution has the variable in out of
+# that statement and in in_ / LIVE_VARS_IN of the statement that follows.
+# Guard of the class (S side, computed from the ast and the graph, never from DEFINED_FNS_IN): a reader that is a
+# local function f of an enclosing function E counts only if the `def f` statement lies on a graph path to the `def`
+# statement (in E's graph) of the function on g's nesting chain -- i.e. f's definition reaches the definition of g,
+# which is what reaching_fndefs.TreeAnnotator passes into g's graph as external definitions.  Reads by functions
+# defined later than g (or by a recursive activation of g / of an enclosing function) are counted in
+# `skipped_reads` and not claimed.
+
+def fn_own_bound(fnode):
+    """S: names a function binds as its own locals (parameters, stores, local defs / imports), i.e. not the names it
+    declares nonlocal / global"""
+    stores, decl = set(), set()
+    a = fnode.args
+    for x in a.posonlyargs + a.args + a.kwonlyargs + [y for y in (a.vararg, a.kwarg) if y]:
+        stores.add(x.arg)
+    if isinstance(fnode, ast.Lambda):
+        return stores
+    for n in _own_nodes_block(fnode.body):
+        if isinstance(n, ast.Name) and isinstance(n.ctx, (ast.Store, ast.Del)):
+            stores.add(n.id)
+        elif isinstance(n, (ast.FunctionDef, ast.ClassDef)):
+            stores.add(n.name)
+        elif isinstance(n, ast.alias):
+            stores.add((n.asname or n.name).split('.')[0])
+        elif isinstance(n, ast.ExceptHandler) and n.name:
+            stores.add(n.name)
+        elif isinstance(n, (ast.Nonlocal, ast.Global)):
+            decl |= set(n.names)
+    return stores - decl
+
+
+class Nesting(object):
+    """Static nesting structure of the analysed function: which function's graph holds each `def` statement, and which
+    definitions of the enclosing functions reach the definition of a nested function (S side)."""
+
+    def __init__(self, an):
+        self.an = an
+        self.parent = {}          # id(FunctionDef) -> FnInfo of the function whose graph has the def statement
+        for fi in an.fns.values():
+            for node in fi.nodes.values():
+                if isinstance(node.ast_node, ast.FunctionDef):
+                    self.parent[id(node.ast_node)] = fi
+        self._reach = {}
+        self.lambdas_at = {}      # line -> [Lambda nodes]
+        self.lambda_home = {}     # id(Lambda) -> FnInfo of the function whose statement evaluates it
+        for fi in an.fns.values():
+            for l, node in fi.nodes.items():
+                if l in fi.lambdas or fi.kind(l) == 'args':
+                    continue
+                roots = [node.ast_node.context_expr] if fi.kind(l) == 'item' else [node.ast_node]
+                for r in roots:
+                    for x in _own_nodes(r):
+                        if isinstance(x, ast.Lambda):
+                            self.lambdas_at.setdefault(x.lineno, []).append(x)
+                            self.lambda_home[id(x)] = fi
+
+    def reaching(self, fi):
+        if id(fi) not in self._reach:
+            self._reach[id(fi)] = defs_reaching(fi)
+        return self._reach[id(fi)]
+
+    def chain(self, fnode):
+        """[fnode, the function enclosing it, ..., the top function]"""
+        out = [fnode]
+        while id(out[-1]) in self.parent:
+            out.append(self.parent[id(out[-1])].fn)
+        return out
+
+    def external_defs(self, fnode):
+        """-> [(def / lambda node of an enclosing function whose definition reaches the definition of fnode (or of the
+        function on its chain), set of names bound between that level and fnode (they hide the outer variable))]"""
+        out = []
+        shadow = set()
+        c = fnode
+        while id(c) in self.parent:
+            e = self.parent[id(c)]
+            shadow = shadow | fn_own_bound(c)
+            lab = e.sk.label.get(id(c))
+            for d in self.reaching(e).get(lab, ()):
+                out.append((d, set(shadow)))
+            c = e.fn
+        return out
+
+    def reaches_def_of(self, d, fnode):
+        """does the definition d (a def / lambda of an enclosing function) reach the definition of fnode?"""
+        return any(x is d for x, _ in self.external_defs(fnode))
+
+
+def nesting_of(an):
+    if getattr(an, '_nesting', None) is None:
+        an._nesting = Nesting(an)
+    return an._nesting
+
+
+class _Act(object):
+    __slots__ = ('code', 'start', 'end', 'aborted', 'serial')
+
+    def __init__(self, code, start, serial):
+        self.code = code
+        self.start = start
+        self.end = None
+        self.aborted = False
+        self.serial = serial
+
+
+class ActView(object):
+    """What liveness_failures needs (the Dyn interface) for ONE activation of a nested function, in terms of the
+    names of that function's graph: ev = (op, var, None | name of the function that performed the access, line)."""
+    ok = True
+
+    def __init__(self, dyn, fi, ev, inst, lines_before, serial, skipped_reads):
+        self.fi = fi
+        self.ev = ev
+        self.inst = inst
+        self.declared_globals = set()
+        self.nested = dyn.nested
+        self.code_at = dyn.code_at
+        self.depth = dyn.depth
+        self.decisions = dyn.decisions
+        self.lines_before = lines_before      # lines of statement instances (any frame) started before the activation
+        self.serial = serial
+        self.skipped_reads = skipped_reads    # reads outside the guarded class: [(var, reader, line, why)]
+
+    def labelled(self):
+        return [x for x in self.inst if x.label]
+
+
+def nested_activation_views(an, dyn, max_per_fn=3):
+    """Cuts dyn.raw into the activations of the nested functions and returns an ActView for each judged one (at most
+    max_per_fn per function and run).  Anything the cutter is not sure about (ambiguous code objects, an exception
+    leaving a nested frame, a with / raise statement in a nested function) drops the activation, never invents a read;
+    a write whose variable instance is not certain still kills."""
+    nest = nesting_of(an)
+    root = dyn.root
+    parent = {}
+    codes = [root]
+    todo = [root]
+    while todo:
+        c = todo.pop()
+        for k in c.co_consts:
+            if hasattr(k, 'co_code'):
+                parent[id(k)] = c
+                codes.append(k)
+                todo.append(k)
+    lines = {id(c): set(l for _, _, l in c.co_lines() if l is not None) | {c.co_firstlineno} for c in codes}
+
+    # code object -> def / lambda node
+    defnode = {}
+    by_pos = {}
+    for fn in an.fns:
+        by_pos.setdefault((fn.name, fn.lineno), []).append(fn)
+    for c in codes:
+        if c is root:
+            defnode[id(c)] = an.fn
+        elif c.co_name == '<lambda>':
+            cands = nest.lambdas_at.get(c.co_firstlineno, [])
+            defnode[id(c)] = cands[0] if len(cands) == 1 else None
+        else:
+            cands = by_pos.get((c.co_name, c.co_firstlineno), [])
+            defnode[id(c)] = cands[0] if len(cands) == 1 else None
+
+    def anc(c):
+        out = [c]
+        while id(out[-1]) in parent:
+            out.append(parent[id(out[-1])])
+        return out
+
+    def owner(c, var):
+        if var in c.co_varnames or var in c.co_cellvars:
+            return c
+        if var in c.co_freevars:
+            p = parent.get(id(c))
+            while p is not None:
+                if var in p.co_cellvars:
+                    return p
+                p = parent.get(id(p))
+        return None
+
+    # pass 1: global timeline with the activation every event belongs to
+    G = []
+    stack = []
+    acts = []
+    nacts = {}
+    for e in dyn.raw:
+        if e[0] == 'call':
+            cands = [c for c in codes if c.co_name == e[1] and c.co_firstlineno == e[2]]
+            if len(cands) != 1:
+                return []
+            a = _Act(cands[0], len(G), len(acts))
+            acts.append(a)
+            stack.append(a)
+            nacts[id(a.code)] = nacts.get(id(a.code), 0) + 1
+            continue
+        if not stack:
+            return []
+        if e[0] == 'ret':
+            if stack[-1].code.co_name != e[1]:
+                return []
+            stack.pop().end = len(G)
+            continue
+        if e[0] not in ('line', 'R', 'W', 'D'):
+            continue
+        # the frame that performs the event: the top of the stack, unless an exception unwound frames
+        while stack and not (stack[-1].code.co_name == e[1] and e[2] in lines[id(stack[-1].code)]):
+            a = stack.pop()
+            a.aborted = True
+            a.end = len(G)
+        if not stack:
+            return []
+        G.append((e[0], stack[-1], e[3] if e[0] != 'line' else None, e[2]))
+    for a in stack:
+        a.aborted = True
+
+    def allowed(k, g):
+        """may a read performed by code k during an activation of g be claimed? -> (bool, why not)"""
+        ak = anc(k)
+        if any(x is g for x in ak[1:]):
+            return True, ''                       # a function nested in g
+        ag = anc(g)
+        for e in ag[1:]:
+            if any(x is e for x in ak[1:]):
+                f = ak[[i for i, x in enumerate(ak) if x is e][0] - 1]
+                c = ag[[i for i, x in enumerate(ag) if x is e][0] - 1]
+                if f is c:
+                    return False, 'recursive activation'
+                df, dc = defnode.get(id(f)), defnode.get(id(c))
+                if df is None or dc is None:
+                    return False, 'ambiguous code object'
+                if nest.reaches_def_of(df, dc) and nest.parent.get(id(dc)) is not None:
+                    return True, ''
+                return False, 'defined on no path to the definition of the running function'
+        return False, 'recursive activation'
+
+    views = []
+    per_fn = {}
+    for A in acts:
+        g = A.code
+        if g is root or A.aborted or A.end is None:
+            continue
+        gnode = defnode.get(id(g))
+        if gnode is None or not isinstance(gnode, ast.FunctionDef) or gnode not in an.fns:
+            continue
+        if per_fn.get(id(g), 0) >= max_per_fn:
+            continue
+        fi = an.fns[gnode]
+        if fi.lv is None:
+            continue
+        sk = fi.sk
+        names_g = set(g.co_varnames) | set(g.co_cellvars) | set(g.co_freevars)
+        own_g = {v: owner(g, v) for v in names_g}
+        ev = []
+        inst = []
+        cur = Instance(fi.entry, 0, gnode.lineno)
+        inst.append(cur)
+        npar = g.co_argcount + g.co_kwonlyargcount + (1 if g.co_flags & 4 else 0) + (1 if g.co_flags & 8 else 0)
+        for a in g.co_varnames[:npar]:
+            ev.append(('W', a, None, gnode.lineno))
+        skipped = []
+        bad = False
+        for op, act, var, line in G[A.start:A.end]:
+            if act is A:
+                if op == 'line':
+                    labs = sk.line_labels.get(line, ())
+                    if len(labs) > 1 or (labs and sk.kind[labs[0]] in ('item', 'raise')):
+                        bad = True
+                        break
+                    cur.end = len(ev)
+                    if labs:
+                        cur = Instance(labs[0], len(ev), line)
+                        ev.append(('line', line, None, line))
+                    else:
+                        cur = Instance(0, len(ev), line)
+                        ev.append(('gap', line, None, line))
+                    inst.append(cur)
+                elif var in names_g:
+                    ev.append((op, var, None, line))
+                continue
+            if op == 'line' or var not in names_g:
+                continue
+            ok_, og = owner(act.code, var), own_g[var]
+            if ok_ is None or og is None or ok_ is not og:
+                continue                           # another variable of the same name
+            if op != 'R':
+                ev.append((op, var, act.code.co_name, line))      # (kills even if it is another instance of the cell)
+                continue
+            if not (og is root or nacts.get(id(og), 0) == 1):
+                skipped.append((var, act.code.co_name, line, 'the owner of the variable is activated more than once'))
+                continue
+            yes, why = allowed(act.code, g)
+            if yes:
+                ev.append(('R', var, act.code.co_name, line))
+            else:
+                skipped.append((var, act.code.co_name, line, why))
+        if bad:
+            continue
+        cur.end = len(ev)
+        per_fn[id(g)] = per_fn.get(id(g), 0) + 1
+        lines_before = set(ln for op, _, _, ln in G[:A.start] if op == 'line')
+        views.append(ActView(dyn, fi, ev, inst, lines_before, A.serial, skipped))
+    return views
+
+
+def nested_liveness_failures(an, dyn, stats=None):
+    """C07 judged inside the activations of nested functions of one real run -> failures as liveness_failures, with
+    the function name and a title that says where"""
+    out = []
+    for v in nested_activation_views(an, dyn):
+        if stats is not None:
+            stats['activations'] = stats.get('activations', 0) + 1
+            stats['closure_reads'] = stats.get('closure_reads', 0) + sum(1 for e in v.ev if e[0] == 'R' and e[2] is not None)
+            for s in v.skipped_reads:
+                k = 'skipped_reads: ' + s[3]
+                stats[k] = stats.get(k, 0) + 1
+        for f in liveness_failures(an, v.fi, v):
+            f = dict(f)
+            f['what'] = 'in the graph of a nested function, during one activation of it - ' + f['what']
+            f['function'] = v.fi.fn.name
+            f['activation'] = v.serial
+            out.append(f)
     return out
 
 
@@ -1390,6 +1725,112 @@ def gen_paramless_function(rnd):
     return '\n'.join(L) + '\n'
 
 
+def gen_sibling_writer_function(rnd):
+    """Liveness INSIDE a nested function: a local function (the writer, possibly one level further down) assigns a
+    variable of the enclosing function it declares nonlocal and then, in the same activation, the value is consumed only by ANOTHER local function of the enclosing function: called by name,
+    through an alias / a container bound in the enclosing function, or through a chain of one or two sibling closures;
+    in between: nothing, an if, or a loop that may run zero times; afterwards the variable is overwritten or not."""
+    k = [0]
+
+    def key():
+        k[0] += 1
+        return k[0]
+    v, u, w = rnd.sample(_progs.VARS, 3)
+    L = ['def f(a, b, c):', '    %s = T(%d, a)' % (v, key()), '    %s = T(%d)' % (u, key())]
+    reader = 'g%d' % key()
+    # the reader: reads v (and maybe u); maybe through a function of its own
+    L.append('    def %s():' % reader)
+    extra = ', ' + u if rnd.random() < 0.3 else ''
+    if rnd.random() < 0.25:
+        L.append('        def %si():' % reader)
+        L.append('            return T(%d, %s%s)' % (key(), v, extra))
+        L.append('        return %si()' % reader)
+    else:
+        L.append('        return T(%d, %s%s)' % (key(), v, extra))
+    # how the writer gets at the reader
+    call = reader + '()'
+    route = rnd.choice(['name', 'alias', 'alias', 'list', 'hop', 'hop', 'hop2', 'hop-alias'])
+    if route in ('hop', 'hop2', 'hop-alias'):
+        for _ in range(2 if route == 'hop2' else 1):
+            h = 'g%d' % key()
+            L.append('    def %s():' % h)
+            if rnd.random() < 0.4:
+                L.append('        T(%d, a)' % key())
+            L.append('        return %s' % (call if rnd.random() < 0.5 else 'T(%d, %s)' % (key(), call)))
+            call = h + '()'
+    if route in ('alias', 'hop-alias'):
+        h = 'h%d' % key()
+        L.append('    %s = %s' % (h, call[:-2]))
+        call = h + '()'
+    elif route == 'list':
+        h = 'cb%d' % key()
+        L.append('    %s = [%s]' % (h, call[:-2]))
+        call = h + '[0]()'
+    if rnd.random() < 0.3:
+        L.append('    %s = T(%d, %s)' % (w, key(), u))
+    # the writer
+    writer = 'g%d' % key()
+    deep = rnd.random() < 0.3
+    L.append('    def %s():' % writer)
+    p = '        '
+    if deep:
+        L.append(p + 'def %si():' % writer)
+        p += '    '
+    L.append(p + 'nonlocal %s' % v)
+    if rnd.random() < 0.3:
+        L.append(p + 'T(%d, %s)' % (key(), v))
+    L.append(p + '%s = T(%d, a)' % (v, key()))
+    mid = rnd.random()
+    if mid < 0.25:
+        L.append(p + 'while D(%d):' % key())
+        L.append(p + '    %s = T(%d)' % (v, key()))
+    elif mid < 0.4:
+        L.append(p + 'for i%d in L(%d):' % (key(), key()))
+        L.append(p + '    %s = T(%d, b)' % (v, key()))
+    elif mid < 0.6:
+        L.append(p + 'if D(%d):' % key())
+        L.append(p + '    T(%d, b)' % key())
+        if rnd.random() < 0.5:
+            L.append(p + 'else:')
+            L.append(p + '    %s = T(%d)' % (v, key()))
+    elif mid < 0.7:
+        L.append(p + 'r%d = T(%d, c)' % (key(), key()))
+    r = 'r%d' % key()
+    form = rnd.random()
+    if form < 0.6:
+        L.append(p + '%s = %s' % (r, call))
+    elif form < 0.8:
+        L.append(p + 'if D(%d):' % key())
+        L.append(p + '    %s = %s' % (r, call))
+        L.append(p + 'else:')
+        L.append(p + '    %s = T(%d)' % (r, key()))
+    else:
+        L.append(p + '%s = T(%d)' % (r, key()))
+        L.append(p + 'while D(%d):' % key())
+        L.append(p + '    %s = %s' % (r, call))
+        if rnd.random() < 0.5:
+            L.append(p + '    %s = T(%d, %s)' % (v, key(), r))
+    if rnd.random() < 0.7:
+        L.append(p + '%s = T(%d)' % (v, key()))
+    L.append(p + 'return T(%d, %s)' % (key(), r))
+    if deep:
+        L.append('        return %si()' % writer)
+    # the enclosing function calls the writer (maybe inside / after a control statement)
+    tail = rnd.random()
+    if tail < 0.3:
+        L.append('    if D(%d):' % key())
+        L.append('        %s = T(%d)' % (v, key()))
+    elif tail < 0.45:
+        L.append('    while D(%d):' % key())
+        L.append('        %s = %s()' % (w, writer))
+    if rnd.random() < 0.5:
+        L.append('    %s = %s()' % (w, writer))
+        L.append('    return T(%d, %s, %s)' % (key(), w, v))
+    else:
+        L.append('    return %s()' % writer)
+    return '\n'.join(L) + '\n'
+
+
 def gen_closure_function(rnd, opts):
     g = ClosureGen(rnd, opts)
     g.emit(0, 'def f(%s):' % ', '.join(_progs.PARAMS))
@@ -1561,6 +2002,7 @@ def lv_case(an, fi, idx):
     nt = Names()
     eff = py_effects(fi)
     sreach = defs_reaching(fi)
+    ext = nesting_of(an).external_defs(fi.fn)
     rows = []
     fnrows = []
     for l, node in sorted(fi.nodes.items()):
@@ -1578,6 +2020,17 @@ def lv_case(an, fi, idx):
                 a, b = fn_free_reads(d)
                 cread |= set(a)
                 cread_nl |= set(b)
+        # ... and, in the graph of a NESTED function, any local function of an enclosing function whose definition
+        # reaches the definition of this function (it exists whenever this function runs and may be called from it
+        # by name, through an alias / container, or through a chain of sibling closures); names bound between that
+        # level and this function hide the outer variable
+        for d, shadow in (ext if calls else ()):
+            if isinstance(d, ast.Lambda):
+                cread_lam |= set(lambda_free_reads(d)) - shadow
+            else:
+                a, b = fn_free_reads(d)
+                cread |= set(a) - shadow
+                cread_nl |= set(b) - shadow
         e = eff.get(l, EMPTY_EFFECT)
         rows.append('(mknode %d %s %s [%s] %s %s %s [] %s %s %s %s %s %s %s %d %d)' % (
             l, 'true' if sc is not None else 'false', coq_scope(sc, nt),
@@ -1745,6 +2198,11 @@ def check_property(run, kind, generate):
                 'declaring nonlocal, called at later points, lambdas stored and called later, raises reaching outer handlers, jumps in try-else under finally, parameterless functions, aliased / stored in a list / re-defined under the same name / called through sibling closures and two-hop chains after if/while/for statements assigning the captured variable; reads only of definitely bound names, plus a stream with maybe-unbound '
                 'reads) x decision vectors driving every test / trip count (0..3) / handler; corpus first; non-trivial = program with a '
                 'loop, try or local function; distinct by source text')
+    if kind == 'lv':
+        run.rule += ('; C07 also: every activation of a nested function is judged against that function\'s own graph (value written '
+                     'in the activation and read later in it by the function itself, by functions nested in it or by local functions '
+                     'of the enclosing functions whose definition reaches its definition -- called by name, alias, container or '
+                     'sibling chains), + a sibling-writer stream of its own for that class')
     rnd = random.Random(run.seed * 7919 + (6 if kind == 'rd' else 7))
     cases = []
     meta = []           # index -> (src, fn name, stream)
@@ -1755,12 +2213,22 @@ def check_property(run, kind, generate):
     hist = {}
     seen_src = set()
     corpus = load_corpus(pid)
-    for it in range(len(corpus) + nprog):
+    # C07 only: a stream of its own (own random source, after the shared streams, so that those stay what they were)
+    # for liveness inside nested functions
+    nextra = (40 if quick else 400) if kind == 'lv' else 0
+    rnd_extra = random.Random(run.seed * 7919 + 1000007)
+    nested_stats = {}
+    for it in range(len(corpus) + nprog + nextra):
+        vec_rnd = rnd
         if it < len(corpus):
             sname, src, cdv = ('corpus:' + corpus[it][0], corpus[it][1], corpus[it][2])
-        else:
+        elif it < len(corpus) + nprog:
             sname, src = program_stream(rnd, it)
             cdv = None
+        else:
+            sname, src = 'sibling-writer', gen_sibling_writer_function(rnd_extra)
+            cdv = None
+            vec_rnd = rnd_extra
         if src in seen_src:
             continue
         seen_src.add(src)
@@ -1786,7 +2254,7 @@ def check_property(run, kind, generate):
         except (Unsupported, skel_mod.Unsupported):
             skipped['unsupported-export'] = skipped.get('unsupported-export', 0) + 1
         fi = an.top
-        for dv in ([cdv] if cdv is not None else []) + decision_vectors(rnd, nvec):
+        for dv in ([cdv] if cdv is not None else []) + decision_vectors(vec_rnd, nvec):
             try:
                 d = Dyn(src, fi, dv)
             except RecursionError:
@@ -1798,6 +2266,8 @@ def check_property(run, kind, generate):
             if not d.on_graph:
                 off_graph += 1
             fs = liveness_failures(an, fi, d) if kind == 'lv' else reachdef_failures(an, fi, d)
+            if kind == 'lv':
+                fs = fs + nested_liveness_failures(an, d, nested_stats)
             for f in fs:
                 failures.append((f['what'], f['known'], {'program': src, 'decisions': list(dv), 'failure': f,
                                                          'replay': 'bin/check %s --replay <this file>' % pid}))
@@ -1810,6 +2280,8 @@ def check_property(run, kind, generate):
     run.extra['runs_outside_the_property'] = skipped
     run.extra['runs_off_the_reported_graph'] = off_graph
     run.extra['construct_histogram'] = hist
+    if kind == 'lv':
+        run.extra['nested_function_activations_judged'] = nested_stats
 
     module = 'MV.Flow.LvCheck' if kind == 'lv' else 'MV.Flow.RdCheck'
     bad, err = coq_eval_cases(pid, 'cases', cases, 'lv_case' if kind == 'lv' else 'rd_case',
@@ -1875,6 +2347,12 @@ def check_property(run, kind, generate):
         "C05's guard: no break / continue / return in an except body of a try with finally",
         'per node, Python\'s reads / binds / deletes are computed from the ast alone (export/flow.py: py_effects) and every instance of a node binds all of them',
         'each generated statement sits on its own line (line events identify CFG nodes)']
+    if kind == 'lv':
+        run.assumptions += [
+            'inside an activation of a nested function only reads performed before the activation ends are claimed, and a read '
+            'through a local function of an enclosing function only if that function\'s def statement lies on a graph path to the '
+            'def of the running function (reads through later-defined siblings / recursive activations are counted in '
+            'nested_function_activations_judged.skipped_reads and not judged)']
 
 
 def replay_property(path, kind):
@@ -1893,6 +2371,8 @@ def replay_property(path, kind):
         return 0
     print('decisions', rp['decisions'], '-> executed nodes', [x.label for x in d.inst if x.label])
     fs = liveness_failures(an, an.top, d) if kind == 'lv' else reachdef_failures(an, an.top, d)
+    if kind == 'lv':
+        fs = fs + nested_liveness_failures(an, d)
     for f in fs:
         print('FAIL', f)
     return 1 if fs else 0
